@@ -71,8 +71,7 @@ example :
     wb (below 5 true) 0 exL = 6 ∧
     wb (below 5 true) 0 (compactCore ltInt exL 0 true true false) = 5 ∧
     wb (below 5 true) 0 (compactCore ltInt exL 0 true true true) = 7 := by
-  simp [compactCore, exL, ltInt, below, leftoverOf, adjOf, sortBy, List.mergeSort, mergeUp, halfUpDown,
-    halveUp, evens, odds, wb, cnt]
+  decide
 
 example : wb (below 5 true) 0 (compactCore ltInt exL 0 true true false)
     + wb (below 5 true) 0 (compactCore ltInt exL 0 true true true) = 2 * wb (below 5 true) 0 exL :=
@@ -93,7 +92,7 @@ example :
     compactCore ltInt exL 1 false false true = [[3, 7, 1, 2, 4], [], [8]] ∧
     (compactCore ltInt exL 1 false false true).map List.length = [5, 0, 1] ∧
     lenAfter exL.length (MOp.compact 1 false false : MOp Int) = 3 := by
-  simp [compactCore, exL, leftoverOf, adjOf, halfUpDown, halveDown, evens, odds, lenAfter]
+  decide
 
 /-! ### c. all coin outcomes of a schedule -/
 
@@ -109,8 +108,7 @@ theorem sumAll_unbiased (lt : α → α → Bool) (p : α → Bool) (ops : List 
 example :
     validAll exL.length exOps = true ∧ flips exOps = 2 ∧ addedBelow (below 5 true) exOps = 1 ∧
     sumAll ltInt (below 5 true) exL exOps = (28, 4) := by
-  simp [validAll, valid, lenAfter, flips, addedBelow, sumAll, mstep, compactCore, exL, exOps, ltInt, below,
-    leftoverOf, adjOf, sortBy, List.mergeSort, mergeUp, halfUpDown, halveUp, halveDown, evens, odds, wb, cnt]
+  decide
 
 /-! ### d. `sumAll` is the sum over all coin vectors -/
 
@@ -142,8 +140,7 @@ theorem mech_unbiased (lt : α → α → Bool) (p : α → Bool) (L : List (Lis
 example :
     mrun ltInt exL exOps [true, false] = [[5, 3], [], [1, 4]] ∧
     (allVecs (flips exOps)).map (fun cs => wb (below 5 true) 0 (mrun ltInt exL exOps cs)) = [6, 6, 10, 6] := by
-  simp [allVecs, flips, mrun, mstep, compactCore, exL, exOps, ltInt, below, leftoverOf, adjOf, sortBy,
-    List.mergeSort, mergeUp, halfUpDown, halveUp, halveDown, evens, odds, wb, cnt]
+  decide
 
 /-! ### e. Int items, rank predicates -/
 
@@ -166,8 +163,7 @@ theorem mech_unbiased_int (y : Int) (incl : Bool) (ops : List (MOp Int)) (L : Li
 example :
     wb (below 2 false) 0 exL = 1 ∧ addedBelow (below 2 false) exOps = 0 ∧
     sumAll ltInt (below 2 false) exL exOps = (4, 4) := by
-  simp [addedBelow, sumAll, mstep, compactCore, exL, exOps, ltInt, below,
-    leftoverOf, adjOf, sortBy, List.mergeSort, mergeUp, halfUpDown, halveUp, halveDown, evens, odds, wb, cnt]
+  decide
 
 example : sumAll ltInt (below 5 true) exL exOps = (2 ^ 2 * (6 + 1), 2 ^ 2) := by
   have h := sumAll_unbiased_int 5 true exOps exL (by decide)
